@@ -13,7 +13,7 @@ PROPS = ['Props/Properties_C02.v', 'Props/Properties_C02b.v']
 EXTRACT = '''From Coq Require Import Extraction ExtrOcamlBasic.
 Require Import Num Vec Tree MB Spatial C02_Model.
 Extraction Language OCaml.
-Extraction "c02run.ml" cmkTree out_resid out_idacc out_abi out_fd out_minv out_rnea_of_fd out_react_art out_react_fb out_equiv mkCbx mkNode mkDyn.
+Extraction "c02run.ml" cmkTree out_resid out_idacc out_abi out_fd out_minv out_rnea_of_fd out_react_art out_react_fb out_equiv out_pivots mkCbx mkNode mkDyn.
 '''
 INDEXED = ('IDACC', 'FDACC', 'RACC', 'REACT', 'REACTFB', 'ABI', 'PPLUS', 'Z', 'ZP', 'DMAT', 'DIMAT', 'GMAT')
 # tag -> relative tolerance (scale = max(1, largest |component| of the implementation's vector)).
@@ -47,7 +47,7 @@ def parse(out):
     for line in out.split('\n'):
         t = line.split()
         if not t: continue
-        if t[0] == 'SYS': cur = {'inputs': [line], 'outs': collections.OrderedDict(), 'types': [], 'nb': int(t[1]), 'nu': int(t[2]), 'lone': False, 'hyp': None, 'zeroU': False}
+        if t[0] == 'SYS': cur = {'inputs': [line], 'outs': collections.OrderedDict(), 'types': [], 'nb': int(t[1]), 'nu': int(t[2]), 'lone': False, 'hyp': None, 'piv': None, 'zeroU': False}
         elif t[0] == 'END':
             if cur is not None: systems.append(cur); cur = None
         elif t[0] == 'SKIP': systems.append(None)
@@ -56,6 +56,7 @@ def parse(out):
             if t[1] in INDEXED: cur['outs'][(t[1], int(t[2]))] = parse_floats(' '.join(t[3:]))
             else: cur['outs'][(t[1], 0)] = parse_floats(' '.join(t[2:]))
         elif t[0] == 'HYP': cur['hyp'] = parse_floats(' '.join(t[1:]))
+        elif t[0] == 'PIV': cur['piv'] = parse_floats(' '.join(t[1:]))[0]
         else:
             cur['inputs'].append(line)
             if t[0] == 'BODY': cur['types'].append((t[5], int(t[6])))
@@ -77,13 +78,14 @@ def correspondence(ctx, d, nsys, maxb):
     if len(S1) != len(S2) or not S1:
         ctx.broken.append(('correspondence:C02', 'system count mismatch %d vs %d' % (len(S1), len(S2)))); return
     dis = []; ncmp = collections.Counter(); worst = collections.defaultdict(float); typehist = collections.Counter()
-    distinct = set(); nontriv = 0; nlone = 0; nzero = 0; hyp1 = 0.0; hyp2 = 0.0; predfail = []
+    distinct = set(); nontriv = 0; nlone = 0; nzero = 0; hyp1 = 0.0; hyp2 = 0.0; predfail = []; pivmin = float('inf')
     for k, (a, b) in enumerate(zip(S1, S2)):
         for ty in a['types']: typehist['%s%s' % (ty[0], '(rev)' if ty[1] else '')] += 1
         sig = (tuple(a['types']), a['zeroU'], a['lone'])
         if a['nb'] >= 3 and sig not in distinct: nontriv += 1
         distinct.add(sig); nlone += a['lone']; nzero += a['zeroU']
         if b['hyp']: hyp1 = max(hyp1, b['hyp'][0]); hyp2 = max(hyp2, b['hyp'][1])
+        if b.get('piv') is not None: pivmin = min(pivmin, b['piv']) if b['piv'] == b['piv'] else float('nan')
         fscale = max([1.0] + [abs(x) for key in a['outs'] if key[0] == 'RESID' for x in a['outs'][key]])
         for key, va in a['outs'].items():
             tag = key[0]
@@ -115,7 +117,7 @@ def correspondence(ctx, d, nsys, maxb):
     ctx.extra['correspondence'] = {'implementation_D_DI': {'max|D*DI-1|': ih1, 'max rel asymmetry of DI': ih2}, 'systems': len(S1), 'skipped_by_generator': skipped, 'lone_particle_systems': nlone, 'zero_velocity_systems': nzero,
         'compared_per_tag': dict(ncmp), 'worst_relative_difference_per_tag': {t: float('%.3g' % w) for t, w in worst.items()},
         'tolerance_per_tag': TOL, 'mobilizer_histogram': dict(typehist), 'distinct_signatures': len(distinct), 'max_bodies': maxb,
-        'theorem_hypotheses_on_float_runs': {'max|D*DI-1|': hyp1, 'max rel asymmetry of DI': hyp2}}
+        'theorem_hypotheses_on_float_runs': {'max|D*DI-1|': hyp1, 'max rel asymmetry of DI': hyp2, 'min |elimination pivot| over all D blocks': pivmin}}
     ctx.add_cases(len(S1), nontriv, [{'bodies': [l for l in S1[0]['inputs'] if l.startswith('BODY')][:2],
                                      'impl_RESID': S1[0]['outs'].get(('RESID', 0)), 'model_RESID': S2[0]['outs'].get(('RESID', 0)),
                                      'impl_FDUD': S1[0]['outs'].get(('FDUD', 0)), 'model_FDUD': S2[0]['outs'].get(('FDUD', 0))}])
@@ -125,6 +127,8 @@ def correspondence(ctx, d, nsys, maxb):
                            (x['system'], x['seed'], x['tag'], x['index'], x['impl'], x['model'], len(dis), sorted(set(y['tag'] for y in dis)))))
         ctx.extra['first_disagreement'] = x
     # the per-node hypotheses of fd_then_rnea_zero (D*DI = 1, DI symmetric) must hold for the computed inverses up to rounding
+    if not (pivmin > 0):
+        ctx.broken.append(('hypothesis:C02:pivots', 'an elimination pivot of a D block is zero or not finite on the generated cases (min |pivot| = %r): the any-dof theorems do not apply there' % pivmin))
     if hyp1 > 1e-8 or hyp2 > 1e-6 or ih1 > 1e-8 or ih2 > 1e-6:
         ctx.broken.append(('hypothesis:C02:sym_inverse', 'the computed inverse of D is not a symmetric inverse on the generated cases: model max|D*DI-1|=%g asym=%g; implementation %g %g' % (hyp1, hyp2, ih1, ih2)))
     for pf in predfail[:1]:
